@@ -22,6 +22,8 @@ type brModel struct {
 	half      []bool // half-open results (ring of capacity)
 	permitted int
 	amb       bool // the last decision was ambiguous
+	oldMetrics [][]brCounts // admissible metrics of the state being left, per transition made by the last operation
+	now       time.Duration
 }
 
 type brRec struct {
@@ -190,6 +192,7 @@ func (m *brModel) to(state int, now time.Duration, delay time.Duration, tr *[]br
 		return
 	}
 	*tr = append(*tr, brTrans{m.state, state})
+	m.oldMetrics = append(m.oldMetrics, m.metrics(now))
 	switch state {
 	case 0:
 		m.ring, m.timed = nil, nil
